@@ -27,18 +27,41 @@ func (f *FuncVC) keyTerm(k *Val, kt types.Type) (string, string, bool) {
 		for i := 0; i < st.NumFields(); i++ {
 			b := basicOf(st.Field(i).Type())
 			if b == nil {
-				return "", "", false
+				return f.opaqueKey(k, kt)
 			}
 			lo, hi, ok := intRange(b)
 			if !ok || hi.BitLen() > 32 {
-				return "", "", false
+				return f.opaqueKey(k, kt)
 			}
 			width := new(big.Int).Add(new(big.Int).Sub(hi, lo), big.NewInt(1))
 			term = arith("+", arith("*", term, width.String()), arith("-", k.Fs[i].T, numBig(lo)))
 		}
 		return term, "Int", true
+	case KIface, KPtr, KArr, KFloat:
+		return f.opaqueKey(k, kt)
 	}
 	return "", "", false
+}
+
+// opaqueKey maps a key of an arbitrary comparable type to an Int through an
+// uninterpreted function of its leaves (not assumed injective: sound, weaker).
+func (f *FuncVC) opaqueKey(k *Val, kt types.Type) (string, string, bool) {
+	ls := leavesOfType(kt)
+	ts, err := leafTerms(k)
+	if err != nil || len(ts) != len(ls) || len(ls) == 0 {
+		return "", "", false
+	}
+	var sorts []string
+	for _, l := range ls {
+		sorts = append(sorts, l.Sort)
+	}
+	fn := sym("key:" + typeKey(kt))
+	f.sc.declareFun(fn, sorts, "Int")
+	t := "(" + fn
+	for _, x := range ts {
+		t += " " + x
+	}
+	return t + ")", "Int", true
 }
 
 func (f *FuncVC) mapHeaps(st *State, m *Val, mt *types.Map) (dom, ln string, ksort string, ok bool) {
@@ -78,7 +101,7 @@ func (f *FuncVC) mapLen(st *State, m *Val) string {
 	t := sel(ln, m.T)
 	if f.pure == 0 {
 		t = f.sc.define("mlen", "Int", t)
-		f.fact(st, and(cmp(">=", t, "0"), implies(eq(m.T, "0"), eq(t, "0"))))
+		f.fact(st, and(cmp(">=", t, "0"), cmp("<=", t, maxElems), implies(eq(m.T, "0"), eq(t, "0"))))
 	}
 	return t
 }
